@@ -35,6 +35,10 @@ def random_layout(tokens, rnd, tight=0.15):
     return text
 
 
+# file names that sort before and after "main" (tables keyed by file name keep the main file first, in the middle or last)
+NAME_STYLES = ["%s%d", "%s%d", "lib/%s_%d.theo", "a rather long directory/%s%d.theo", "z_%s%d", "zz last/%s_%d.theo", "Z%s%d", "n%s%d"]
+
+
 def split_lines(lines, rnd, max_files=3, prefix="inc", repeat=False):
     """canonical layout over several files: contiguous line blocks move into included files
     (nested includes possible).  -> (files dict, main name)"""
@@ -46,7 +50,7 @@ def split_lines(lines, rnd, max_files=3, prefix="inc", repeat=False):
             break
         i = rnd.randrange(0, len(items) - 1)
         j = rnd.randint(i + 1, min(len(items), i + rnd.choice([1, 2, 3, 6, 12])))
-        name = rnd.choice(["%s%d", "%s%d", "lib/%s_%d.theo", "a rather long directory/%s%d.theo"]) % (prefix, k)
+        name = rnd.choice(NAME_STYLES) % (prefix, k)
         files[name] = "\n".join(items[i:j])
         items[i:j] = ['%s "%s"' % (rnd.choice(L.SPELL[L.INCLUDE]), name)]
     if repeat:
@@ -81,7 +85,7 @@ def split_tokens(tokens, rnd, max_files=3, prefix="f", layout=True):
             break
         i = rnd.randrange(0, len(items) - 1)
         j = rnd.randint(i + 1, min(len(items), i + rnd.choice([1, 1, 2, 5, 20])))
-        name = rnd.choice(["%s%d", "%s%d", "lib/%s_%d.theo", "a rather long directory/%s%d.theo"]) % (prefix, k)
+        name = rnd.choice(NAME_STYLES) % (prefix, k)
         files[name] = items[i:j]
         items[i:j] = [("INC", name)]
 
